@@ -64,6 +64,38 @@ class Cascade:
             return None
         return predeval.call_key(e, self.a, self.b)
 
+    def unary_of(self, e):
+        """a test of one element's key against something that depends on neither element (`fil1 == infinity()`):
+        (key text with '@', operator, other side text, 'a' | 'b') - an opaque predicate of that element's key"""
+        e = ir.skipcasts(e)
+        if e is None or e.get('k') not in ('BinaryOperator', 'CXXOperatorCallExpr') or \
+                e.get('op') not in predeval.CMP_OPS:
+            return None
+        c = e.get('c') or []
+        if e['k'] == 'CXXOperatorCallExpr':
+            c = c[1:]
+        if len(c) != 2:
+            return None
+        l = predeval._subst(self.text(c[0]), self.a, self.b)
+        r = predeval._subst(self.text(c[1]), self.a, self.b)
+        for x, y, op in ((l, r, e['op']), (r, l, {'<': '>', '>': '<', '<=': '>=', '>=': '<='}.get(e['op'], e['op']))):
+            if '\x01' not in y and '\x02' not in y:
+                if '\x01' in x and '\x02' not in x:
+                    return _norm(x.replace('\x01', '@')), op, _norm(y), 'a'
+                if '\x02' in x and '\x01' not in x:
+                    return _norm(x.replace('\x02', '@')), op, _norm(y), 'b'
+        return None
+
+    def unaries(self):
+        out = []
+        for x in ir.walk(self.body, into_lambdas=False):
+            if x.get('k') == 'VarDecl':
+                continue
+            u = self.unary_of(x)
+            if u and u[:3] not in out:
+                out.append(u[:3])
+        return out
+
     def keys(self):
         out = []
         for x in ir.walk(self.body, into_lambdas=False):
@@ -74,12 +106,15 @@ class Cascade:
                 out.append(k[0])
         return out
 
-    def run(self, valuation):
+    def run(self, valuation, unary=None):
         def oracle(e, env):
             if e.get('k') == 'VarDecl':
                 return ('local', e.get('n'))
             k = self.key_of(e)
             if k is None:
+                u = self.unary_of(e)
+                if u is not None and unary is not None:
+                    return unary[(u[:3], u[3])]
                 return None
             key, op, sw = k
             if key not in valuation:
@@ -131,20 +166,37 @@ def check_cascade(chk, rule, fn, expected_keys, identity_key, descending=(), bod
         return
     bad = None
     n = 0
+    # tests of one element's key against a constant (`value == +inf`) are opaque predicates of that key: explored
+    # both ways for each element, with the same truth for both when the valuation says the keys are equal
+    uns = cas.unaries()
+    for u in uns:
+        if u[0] not in expected_keys:
+            raise AnalysisBroken('%s: test on an unexpected key: %s %s %s' % (name, u[0], u[1], u[2]))
+    if len(uns) > 3:
+        raise AnalysisBroken('%s: too many constant tests in the comparator' % name)
     for rels in itertools.product(('lt', 'eq', 'gt'), repeat=len(expected_keys)):
         val = dict(zip(expected_keys, rels))
-        n += 1
-        try:
-            got = cas.run(val)
-        except predeval.Unknown as e:
-            raise AnalysisBroken('%s: comparator of unknown shape: %s' % (name, e))
-        exp = False
-        for k in expected_keys:
-            if val[k] != 'eq':
-                exp = (val[k] == 'lt') != (k in descending)
-                break
-        if got is not exp and bad is None:
-            bad = (val, got, exp)
+        for bits in itertools.product((False, True), repeat=2 * len(uns)):
+            un = {}
+            okc = True
+            for i, u in enumerate(uns):
+                un[(u, 'a')], un[(u, 'b')] = bits[2 * i], bits[2 * i + 1]
+                if val[u[0]] == 'eq' and bits[2 * i] != bits[2 * i + 1]:
+                    okc = False
+            if not okc:
+                continue
+            n += 1
+            try:
+                got = cas.run(val, un)
+            except predeval.Unknown as e:
+                raise AnalysisBroken('%s: comparator of unknown shape: %s' % (name, e))
+            exp = False
+            for k in expected_keys:
+                if val[k] != 'eq':
+                    exp = (val[k] == 'lt') != (k in descending)
+                    break
+            if got is not exp and bad is None:
+                bad = (dict(val, **{'%s %s %s [%s]' % (u[0], u[1], u[2], w): t for (u, w), t in un.items()}), got, exp)
     chk.count('comparator valuations enumerated', n)
     chk.ob(rule, '%s equals the lexicographic strict order on %s (all %d valuations)' % (name, expected_keys, n),
            where, bad is None, '' if bad is None else 'for key relations %s it returns %s, the order requires %s'
